@@ -244,6 +244,7 @@ Definition hobs_eqb (a b : hobs) : bool :=
 (* Monitor: the property evaluated on an implementation trace.  The driver takes a snapshot after
    every operation, so consecutive snapshots bracket exactly one label.                        *)
 Local Open Scope string_scope.
+Local Open Scope Z_scope.
 
 (* no two served regions overlap: the key-ordered scan is a chain *)
 Fixpoint chain_ok (l : list cdig) : bool :=
